@@ -229,6 +229,20 @@ def r7_forked_children_harmless(chk: Check):
     fork_protection(chk)
 
 
+
+def r8_own_session(chk: Check):
+    """A job outlives its scheduler only if what kills the scheduler does not reach it: a detached job must get its own session / process group,
+    or the terminal's Ctrl-C / hang-up is delivered to the job as well (finding kept in known_findings.json)"""
+    tree = chk.tree
+    st = tree.func("connectors.local", "LocalProcessBuilder.start")
+    pop = [c for c in ast.walk(st.node) if isinstance(c, ast.Call) and (dotted(c.func) or "").split(".")[-1] == "Popen"]
+    chk.min_instances(len(pop), 1, "Popen calls of LocalProcessBuilder.start")
+    text = src(st.node)
+    own = any(k in text for k in ("start_new_session", "process_group", "setsid", "setpgrp"))
+    chk.require(own, chk.fkey(st, "detached job has its own session"), "the detached job process stays in the scheduler's session and process group: a Ctrl-C or a closed terminal "
+                "kills the job with the scheduler, the next run finds nothing to adopt and the body runs again", chk.loc(st.module, st.node))
+
+
 RULES = [
     ("R1", "adoption precedes start: job.aio_process() dominates every start; the adoption branch marks RUNNING, waits for the process, ends DONE/ERROR and never starts the job", r1_adoption_precedes_start),
     ("R2", "adoption decision table of CommandLineJob.aio_process (own process / no pid file / vanished / running / not running); a vanished pid maps to None", r2_adoption_decision),
@@ -237,4 +251,5 @@ RULES = [
     ("R4", "a relaunch behind a still-running body is serialised by the same lock and then finds the marker, which nothing removes (= C05.R2-R5)", r4_relaunch_serialised),
     ("R7", "a process forked by the task body drops the runner's exit cleanup and signal handlers: the pid file of the running job survives its helpers (= C10.R3)", r7_forked_children_harmless),
     ("R5", "token holdings left by a dead scheduler are reclaimed after restart: every foreign holding that is read is watched (at construction of the token too) and its watcher deletes it (= C09.R3)", r5_stale_tokens_reclaimed),
+    ("R8", "a detached job gets its own session (finding kept in known_findings.json)", r8_own_session),
 ]
